@@ -134,6 +134,41 @@ def audio_extent(F, S):
     return out
 
 
+def format_preserved(F, S):
+    """The extracted format is the archive's common format: Create copies it wholesale and only resets cbSize; the format
+    slot read from a source file has its trailing cbSize (which may lie beyond a 16-byte fmt payload) reset before it is compared."""
+    from ..rules_stream import is_store
+    out = []
+    wc = F.fn(AR + "WaveHeader::Create", nparams=2)
+    wf = ("var", wc.params[0]["n"], wc.params[0]["d"])
+    stores = []
+    for nd in wc.nodes:
+        if is_store(nd) or (nd["k"] == "CXXOperatorCallExpr" and nd.get("op") == "="):
+            a = nd.get("args") or wc.kids(nd["id"])
+            l = wc.term(a[0])
+            if "waveFormat" in repr(l) and l[0] == "mem":
+                stores.append((nd, l, wc.term(a[1]) if len(a) > 1 else None))
+    whole = [x for x in stores if x[1][2] == "waveFormat" and x[2] == wf]
+    other = [x for x in stores if x not in whole and not (x[1][2] == "cbSize" and x[2] == ("const", 0))]
+    inst = AR + "WaveHeader::Create#format-copied"
+    req = "the header's format block is the given WaveFormatEx copied whole, with only cbSize reset to 0"
+    if len(whole) == 1 and not other:
+        out.append(ok("R-SIB", inst, wc.loc(whole[0][0]["id"]), wc.qn, req, "waveFormat = waveFormat; cbSize = 0"))
+    else:
+        out.append(bad("R-SIB", inst, wc.loc(wc.body), wc.qn, req, "other stores into the format block: %s" % ", ".join(fmt_term(wc.term(x[0]["id"])) for x in other) or "no whole copy"))
+    rh = F.fn(CLM + "::ReadAllWaveHeaders", nparams=3)
+    rd = [nd for nd in rh.nodes if nd["k"] == "CXXMemberCallExpr" and nd.get("fname") == "Read" and "waveFormats" in repr(rh.term(nd["args"][0]))]
+    st = [nd for nd in rh.nodes if is_store(nd) and rh.term(rh.kids(nd["id"])[0])[0] == "mem" and rh.term(rh.kids(nd["id"])[0])[2] == "cbSize"
+          and rh.term(rh.kids(nd["id"])[1]) == ("const", 0)]
+    inst = CLM + "::ReadAllWaveHeaders#cbSize-reset"
+    req = "each format slot's cbSize is reset right after the 18-byte read (a 16-byte fmt payload leaves it holding the next chunk's bytes), before formats are compared"
+    if len(rd) == 1 and len(st) == 1 and st[0]["id"] > rd[0]["id"]:
+        out.append(ok("R-INIT", inst, rh.loc(st[0]["id"]), rh.qn, req, "Read(waveFormats[i]); waveFormats[i].cbSize = 0"))
+    else:
+        out.append(bad("R-INIT", inst, rh.loc(rh.body), rh.qn, req, "no reset of cbSize after the read in the per-file loop"))
+    return out
+
+
 def check(F, run, tier):
     S = Summaries(F)
     run.declined = DECLINED
@@ -154,6 +189,7 @@ def check(F, run, tier):
                      constants=[AR + "standardFileVersion", AR + "standardUnknown", AR + "tagRIFF", AR + "tagWAVE", AR + "tagFMT_", AR + "tagDATA"]))
     run.add(clm_accounting(F, S))
     run.add(audio_extent(F, S))
+    run.add(format_preserved(F, S))
     obs, n = c05.member_extents(F, S)
     run.add([o for o in obs if "ClmFile" in o.instance])
     run.add(refusals_before_write(F, S))
